@@ -22,7 +22,7 @@ from sympde.core.algebra import (Dot_1d,
 from sympde.core.utils import random_string
 
 from sympde.calculus import jump, avg, minus, plus
-from sympde.calculus import Jump, is_zero
+from sympde.calculus import Jump, Average, is_zero
 from sympde.calculus.core import _generic_ops, _diff_ops
 from sympde.calculus.matrices import SymbolicDeterminant, Inverse, Transpose
 from sympde.calculus.matrices import MatSymbolicPow, MatrixElement, SymbolicTrace
@@ -267,6 +267,13 @@ def _split_expr_over_interface(expr, interface, tests=None, trials=None):
 
     for a in args:
         expr = expr.subs({jump(a): minus(a) - plus(a)})
+
+    # we replace all averages
+    avgs = expr.atoms(Average)
+    args = [j._args[0] for j in avgs]
+
+    for a in args:
+        expr = expr.subs({avg(a): (minus(a) + plus(a))/2})
     # ...
 
     # ...
